@@ -28,7 +28,7 @@
 (* Heights, ids, ranks: as in Random.tla.  st.now is the block time in     *)
 (* seconds since the start of the trace.                                   *)
 (***************************************************************************)
-EXTENDS Integers, Sequences, FiniteSets, TLC, Util, Json, IOUtils
+EXTENDS Integers, Sequences, FiniteSets, TLC, Util, Json, IOUtils, OracleClauses
 
 CONSTANTS
   Users,        \* feed creators / other senders
@@ -68,10 +68,10 @@ ValsOf(f) == {f[p] : p \in DOMAIN f}
 CodeMax(f) == SetMax(ValsOf(f))   \* fix bb6c4a3 (F15): before it Max(0, ...), the loop started from the smallest positive float
 CodeMin(f) == SetMin(ValsOf(f))
 
+(* OracleClauses.AvgW with the tight tolerance: half a unit per answer (the
+   8-decimal rounding); the float term is 0 for answers within +-3.4 *)
 AvgOK(v, f) ==
-  LET n == Cardinality(DOMAIN f)
-      sum == SumF(f)
-  IN 2 * Abs(v * n - sum) <= n
+  LET n == Cardinality(DOMAIN f) IN AvgW(SumF(f), n, v, n)
 
 (* nearest unit, ties away from zero *)
 AvgDefault(f) ==
@@ -431,8 +431,8 @@ C17_Aggregate(s, e, t) ==
     (f \in DOMAIN t.values /\ Len(t.values[f]) >= 1) =>
       LET xs == ValidOut(s, e, s.feeds[f].ctx)
           v == t.values[f][1].v
-      IN CASE s.feeds[f].agg = "max" -> v = SetMax(ValsOf(xs))
-           [] s.feeds[f].agg = "min" -> v = SetMin(ValsOf(xs))
+      IN CASE s.feeds[f].agg = "max" -> MaxW(SetMax(ValsOf(xs)), v, 0)
+           [] s.feeds[f].agg = "min" -> MinW(SetMin(ValsOf(xs)), v, 0)
            [] OTHER -> AvgOK(v, xs)
 
 (* C17 history: never more than latest-history values, newest first, and always
